@@ -260,6 +260,7 @@ type Exec struct {
 	mapOrderFull int // all permutations up to this many entries (0 = 3)
 	mapOrderSticky bool // one order per map object and size on a path
 	mapOrders    map[*omap][]int
+	mapOrderGlobal int
 	engineFlags  map[string]int64
 	funcs        map[string]int64 // garble functions entered -> count
 	wantWitness  bool
